@@ -274,7 +274,16 @@ def _provenance_paths(fn, classify, compound, inliner, unroll, s_src, p_val):
             tgts = node.targets if isinstance(node, ast.Assign) else [node.target]
             names = []
             for t in tgts:
-                names.extend(x.id for x in (t.elts if isinstance(t, (ast.Tuple, ast.List)) else [t]) if isinstance(x, ast.Name))
+                for x in (t.elts if isinstance(t, (ast.Tuple, ast.List)) else [t]):
+                    if isinstance(x, ast.Name):
+                        names.append(x.id)
+                    elif isinstance(x, ast.Subscript):
+                        # a coordinate written into the array (`prop[i] = ..`): the point the name stands for changes
+                        b_ = x
+                        while isinstance(b_, ast.Subscript):
+                            b_ = b_.value
+                        if isinstance(b_, ast.Name):
+                            names.append(b_.id)
             pc = [U(c_.args[0]) for c_ in mcmc.posterior_calls(node.value) if c_.args]
             for nm in names:
                 ev.append(("DEF", node.lineno, nm + "|" + ",".join(pc)))
@@ -385,6 +394,23 @@ def _init_pairs(prog, stores):
         pcs = mcmc.posterior_calls(pterm)
         ok = len(pcs) == 1 and U(pcs[0].args[0]) == U(tterm)
         why = f"theta=[{U(tterm)[:80]}] probs={U(pterm)[:120]}"
+    # ... and the pair is not edited afterwards: no element of either store is written, inserted or removed later in the constructor
+    edits = []
+    for st_ in ast.walk(init):
+        tg_ = st_.targets[0] if isinstance(st_, ast.Assign) and len(st_.targets) == 1 else st_.target if isinstance(st_, ast.AugAssign) else None
+        if isinstance(tg_, ast.Subscript):
+            b_ = tg_
+            while isinstance(b_, ast.Subscript):
+                b_ = b_.value
+            if U(b_) in ("self.theta", "self.probs"):
+                edits.append((st_.lineno, U(st_)[:80]))
+        if isinstance(st_, ast.Expr) and isinstance(st_.value, ast.Call) and isinstance(st_.value.func, ast.Attribute) \
+                and st_.value.func.attr in ("append", "insert", "extend", "pop", "remove", "clear", "__setitem__") \
+                and U(st_.value.func.value) in ("self.theta", "self.probs"):
+            edits.append((st_.lineno, U(st_)[:80]))
+    if edits:
+        ok = False
+        why += f"; line {edits[0][0]}: `{edits[0][1]}` edits a store after the starting pair was recorded"
     out.append(struct_ob("init-pair", qual(c, init), ok, "P[0] must be posterior(S[0]): " + why, rel, init.lineno))
     # EnsembleSampler
     c, init = prog.method("EnsembleSampler", "__init__")
@@ -513,6 +539,15 @@ def _exchange(prog):
                 detail.append(f"message to pipe {pipe}: position `{U(fields['position']) if 'position' in fields else None}`, probability "
                               f"`{U(fields['probability'])[:120] if 'probability' in fields else None}`")
             crossed.append((pipe, owner))
+        # both sends happen only when the exchange is accepted: each lies in the body of the `if <draw> <= exp(..)` test of the pair loop
+        acc_ifs = [n for n in ast.walk(loop) if isinstance(n, ast.If) and any(
+            isinstance(x, ast.Call) and U(x.func).split(".")[-1] in ("random", "uniform", "rand") for x in ast.walk(n.test))]
+        for call, st_ in sends:
+            inside = any(any(x is call for b_ in a_.body for x in ast.walk(b_)) for a_ in acc_ifs)
+            if not inside:
+                good = False
+                detail.append(f"line {call.lineno}: `{U(call)[:60]}` is not under the acceptance test: the chain receives the other chain's "
+                              f"point for every proposed pair, accepted or not")
         ok = good and len(sends) == 2 and sorted(crossed) == sorted([(i, j), (j, i)]) and set(tables) == {0, 1}
         why = f"reply tables {tables}; sends (pipe, owner index of message) {sorted(crossed, key=str)}; {detail}"
     out.append(struct_ob("exchange-pair", qual(c, sw) + "[messages]", ok,
